@@ -10,17 +10,19 @@ import (
 
 // State is one symbolic path state.
 type State struct {
-	pc     []*Term
-	cells  map[int]Val
-	heap   map[string]*Term
-	epoch  int // bumped by havoc-all; unknown keys resolve to a per-epoch symbol
-	allocN int
-	allocB *Term // allocation base (alloc0, or a fresh symbol after a loop havoc)
-	trace  []string
-	seen   map[int]bool // terms that already have their type facts in pc
-	hv     map[string]int
-	pcSet  map[int]bool
-	dead   bool
+	pc      []*Term
+	cells   map[int]Val
+	heap    map[string]*Term
+	epoch   int // bumped by havoc-all; unknown keys resolve to a per-epoch symbol
+	allocN  int
+	allocB  *Term // allocation base (alloc0, or a fresh symbol after a loop havoc)
+	trace   []string
+	seen    map[int]bool // terms that already have their type facts in pc
+	hv      map[string]int
+	pcSet   map[int]bool
+	fsms    map[int]*fsmModel  // looplab/fsm objects by ref term id
+	mapClos map[int][]cloEntry // closures stored into Go maps, by map ref term id
+	dead    bool
 }
 
 func (st *State) clone() *State {
@@ -41,6 +43,18 @@ func (st *State) clone() *State {
 	n.hv = make(map[string]int, len(st.hv))
 	for k, v := range st.hv {
 		n.hv[k] = v
+	}
+	if st.fsms != nil {
+		n.fsms = make(map[int]*fsmModel, len(st.fsms))
+		for k, v := range st.fsms {
+			n.fsms[k] = v
+		}
+	}
+	if st.mapClos != nil {
+		n.mapClos = make(map[int][]cloEntry, len(st.mapClos))
+		for k, v := range st.mapClos {
+			n.mapClos[k] = append([]cloEntry{}, v...)
+		}
 	}
 	n.trace = append([]string{}, st.trace...)
 	return n
@@ -73,6 +87,65 @@ func (st *State) assume(t *Term) {
 	}
 	st.pcSet[t.id] = true
 	st.pc = append(st.pc, t)
+	if st.pcSet[Not(t).id] {
+		st.dead = true
+		return
+	}
+	// light forward chaining (keeps guard patterns from forking needlessly)
+	switch {
+	case t.op == "=" && t.args[0].sort == SBool:
+		a, b := t.args[0], t.args[1]
+		switch {
+		case st.known(a) == 1:
+			st.assume(b)
+		case st.known(a) == -1:
+			st.assume(Not(b))
+		case st.known(b) == 1:
+			st.assume(a)
+		case st.known(b) == -1:
+			st.assume(Not(a))
+		}
+	case t.op == "=>":
+		a, b := t.args[0], t.args[1]
+		if st.known(a) == 1 {
+			st.assume(b)
+		} else if st.known(b) == -1 {
+			st.assume(Not(a))
+		}
+	case t.op == "not" && t.args[0].op == "and":
+		// not(and(x, y)) with x known -> not y (binary case)
+		as := t.args[0].args
+		if len(as) == 2 {
+			if st.known(as[0]) == 1 {
+				st.assume(Not(as[1]))
+			} else if st.known(as[1]) == 1 {
+				st.assume(Not(as[0]))
+			}
+		}
+	}
+}
+
+// known: 1 if t is syntactically among the assumptions, -1 if its negation is, 0 otherwise.
+func (st *State) known(t *Term) int {
+	if t.isTrue() {
+		return 1
+	}
+	if t.isFalse() {
+		return -1
+	}
+	if st.pcSet == nil {
+		st.pcSet = map[int]bool{}
+		for _, p := range st.pc {
+			st.pcSet[p.id] = true
+		}
+	}
+	if st.pcSet[t.id] {
+		return 1
+	}
+	if st.pcSet[Not(t).id] {
+		return -1
+	}
+	return 0
 }
 
 var alloc0 = func() *Term { return Sym("alloc0", SInt) }
